@@ -19,6 +19,7 @@ its attributes only (no pharmpy algebra is called).
 from __future__ import annotations
 
 import itertools
+import random
 
 ABSORPTION = ("FO", "ZO", "SEQ-ZO-FO", "INST")
 ELIMINATION = ("FO", "ZO", "MM", "MIX-FO-MM")
@@ -46,6 +47,10 @@ DEFAULTS = {
 
 class MFLSyntaxError(Exception):
     pass
+
+
+class Wild(tuple):
+    """The expansion of a `*`; behaves as the tuple of all options but remembers how it was written."""
 
 
 # ------------------------------------------------------------------------------------------ reader
@@ -101,7 +106,7 @@ class _Reader:
     def tokens_or_wildcard(self, allowed, wildcard_value=None, allow_list=True):
         """token | [token, ...] | *   -> tuple of tokens"""
         if self.maybe("*"):
-            return tuple(allowed if wildcard_value is None else wildcard_value)
+            return Wild(allowed if wildcard_value is None else wildcard_value)
         if allow_list and self.maybe("["):
             out = []
             if self.maybe("]"):
@@ -265,7 +270,8 @@ def expand(text):
     sts = read_statements(text)
     S = new_space()
     info = {"refs": set(), "lets": {}, "let_dups": False, "empty": False, "param_wild": False,
-            "mandatory_fp_wild": False, "forced_twice": False, "n_statements": len(sts)}
+            "mandatory_fp_wild": False, "forced_twice": False, "n_statements": len(sts),
+            "wild": set(), "struct": {"peripherals": [], "indirect": [], "transits": []}}
     for st in sts:
         if st[0] == "let":
             if st[1] in info["lets"]:
@@ -286,10 +292,21 @@ def expand(text):
         if k in ("absorption", "elimination", "lagtime", "direct", "effectcomp", "metabolite"):
             if not st[1]:
                 info["empty"] = True
+            if isinstance(st[1], Wild):
+                info["wild"].add(k)
             add(k, st[1])
         elif k in ("transits", "peripherals", "indirect"):
             if not st[1] or not st[2]:
                 info["empty"] = True
+            if isinstance(st[2], Wild):
+                info["wild"].add({"transits": "depot", "peripherals": "kind", "indirect": "indirect_prod"}[k])
+            if isinstance(st[1], Wild):
+                info["wild"].add("indirect_modes")
+            if k == "indirect":
+                info["struct"][k].append(("*" if isinstance(st[1], Wild) else tuple(st[1]),
+                                          "*" if isinstance(st[2], Wild) else tuple(st[2])))
+            else:
+                info["struct"][k].append((frozenset(st[1]), frozenset(st[2])))
             add(k, itertools.product(st[1], st[2]))
         elif k == "allometry":
             S[k] = frozenset({(st[1], st[2])})  # a later ALLOMETRY replaces an earlier one: not generated
@@ -312,6 +329,8 @@ def expand(text):
             ps, cs = resolve(p), resolve(c)
             if not fp:
                 info["empty"] = True
+            if fp_wild:
+                info["wild"].add("fp")
             if fp_wild and not optional:
                 info["mandatory_fp_wild"] = True
             if not optional and p[0] == "v" and c[0] == "v":
@@ -598,169 +617,470 @@ def ref_nonempty_subsets(elems):
 
 
 # ------------------------------------------------------------------------------------------ generator
+# Spaces are generated as explicit option sets (S level) and then *rendered* to text in one of the many
+# equivalent spellings the grammar allows.  Related pairs are derived at S level.
 PARAM_POOL = ("CL", "V", "MAT", "KA", "Q", "VP1", "TVCL", "MDT")
 COV_POOL = ("WGT", "AGE", "SEX", "APGR", "CRCL", "HT")
 LET_NAMES = ("CONTINUOUS", "CATEGORICAL", "DISTRIBUTION", "MYPARS", "IIV", "my_covs", "Abc")
 
 
-def _case(rng, w, style):
-    if style == 0:
-        return w
-    if style == 1:
-        return w.lower()
-    if style == 2:
-        return w.capitalize()
-    return "".join(ch.lower() if rng.random() < 0.5 else ch.upper() for ch in w)
+def _subset(rng, pool, weights=(40, 30, 15, 15)):
+    pool = list(pool)
+    k = rng.choices(range(1, len(weights) + 1), weights)[0]
+    k = min(k, len(pool))
+    return frozenset(rng.sample(pool, k))
 
 
-class Gen:
-    """Grammar driven generator.  `cfg` switches constructs on/off (stratification); `tags` records which
-    constructs the produced text contains."""
+def _count_set(rng, mx):
+    r = rng.random()
+    if r < 0.35:
+        return frozenset({rng.randint(0, mx)})
+    if r < 0.7:
+        a = rng.randint(0, mx - 1)
+        return frozenset(range(a, rng.randint(a, min(mx, a + 3)) + 1))
+    return frozenset(rng.sample(range(0, mx + 1), rng.randint(1, 3)))
+
+
+def gen_category(rng, cat, o):
+    if cat == "absorption":
+        return _subset(rng, ABSORPTION)
+    if cat == "elimination":
+        return _subset(rng, ELIMINATION)
+    if cat == "lagtime":
+        return _subset(rng, LAGTIME, (60, 40))
+    if cat in ("direct", "effectcomp"):
+        return _subset(rng, PDTYPE, (45, 30, 25))
+    if cat == "metabolite":
+        return _subset(rng, METABOLITE, (60, 40))
+    if cat == "transits":
+        cd = _count_set(rng, o.get("max_count", 5))
+        r = rng.random()
+        if not o.get("nodepot", True) or r < 0.5:
+            return frozenset((n, "DEPOT") for n in cd)
+        if r < 0.65:
+            return frozenset((n, "NODEPOT") for n in cd)
+        if r < 0.85:
+            return frozenset((n, d) for n in cd for d in DEPOT)
+        cn = _count_set(rng, o.get("max_count", 5))
+        return frozenset((n, "DEPOT") for n in cd) | frozenset((n, "NODEPOT") for n in cn)
+    if cat == "peripherals":
+        cd = _count_set(rng, o.get("max_periph", 4))
+        r = rng.random()
+        if not o.get("met", True) or r < 0.7:
+            return frozenset((n, "DRUG") for n in cd)
+        if r < 0.8:
+            return frozenset((n, "MET") for n in cd)
+        if r < 0.9:
+            return frozenset((n, k) for n in cd for k in PERIPH_KIND)
+        cm = _count_set(rng, 2)
+        return frozenset((n, "DRUG") for n in cd) | frozenset((n, "MET") for n in cm)
+    if cat == "indirect":
+        m = _subset(rng, PDTYPE, (45, 30, 25))
+        r = rng.random()
+        if r < 0.4:
+            return frozenset((x, "PRODUCTION") for x in m)
+        if r < 0.7:
+            return frozenset((x, "DEGRADATION") for x in m)
+        if r < 0.85:
+            return frozenset((x, p) for x in m for p in PRODUCTION)
+        m2 = _subset(rng, PDTYPE, (45, 30, 25))
+        return frozenset((x, "PRODUCTION") for x in m) | frozenset((x, "DEGRADATION") for x in m2)
+    if cat == "allometry":
+        return frozenset({(rng.choice(COV_POOL), rng.choice([70.0, 1.0, 12.5, 100.0]))})
+    if cat == "covariate":
+        out = set()
+        forced = {}
+        for _ in range(rng.choice([1, 1, 2, 2, 3])):
+            ps = _subset(rng, o.get("param_pool", PARAM_POOL), (50, 30, 20))
+            cs = _subset(rng, o.get("cov_pool", COV_POOL), (60, 40))
+            if o.get("refs") and rng.random() < 0.5:
+                ps = frozenset({("@", rng.choice(o["refs"][0]))})
+            if o.get("refs") and rng.random() < 0.4:
+                cs = frozenset({("@", rng.choice(o["refs"][1]))})
+            fps = frozenset(FP_CONTINUOUS) if rng.random() < 0.2 else _subset(rng, FP_ALL, (50, 30, 20))
+            op = rng.choice(["*", "*", "+"])
+            optional = rng.random() < o.get("p_optional", 0.6)
+            if not optional:
+                # pharmpy refuses the same (param, cov) forced by two statements: keep one operator per pair
+                # and never force a pair twice
+                if any((p, c) in forced for p in ps for c in cs) or any(isinstance(x, tuple) for x in ps | cs):
+                    optional = True
+                else:
+                    for p in ps:
+                        for c in cs:
+                            forced[(p, c)] = op
+            out |= set(itertools.product(ps, cs, fps, (op,), (optional,)))
+        return frozenset(out)
+    raise KeyError(cat)
+
+
+def gen_space(rng, profile, o=None):
+    """profile: 'pk' | 'pd' | 'cov' | 'mix' | 'pkfull' -> S (category -> frozenset | None)."""
+    o = o or {}
+    S = new_space()
+    cats = []
+    if profile in ("pk", "mix", "pkfull"):
+        k = 5 if profile == "pkfull" else rng.randint(1, 5)
+        cats += rng.sample(PK_CATS, k)
+        if rng.random() < o.get("p_metabolite", 0.0):
+            cats.append("metabolite")
+    if profile in ("pd", "mix"):
+        cats += rng.sample(("direct", "effectcomp", "indirect"), rng.randint(1, 3))
+    if profile in ("cov", "mix"):
+        cats.append("covariate")
+    if o.get("allometry"):
+        cats.append("allometry")
+    for c in cats:
+        S[c] = gen_category(rng, c, o)
+    return S
+
+
+def universe(cat, o=None):
+    o = o or {}
+    if cat == "absorption":
+        return set(ABSORPTION)
+    if cat == "elimination":
+        return set(ELIMINATION)
+    if cat == "lagtime":
+        return set(LAGTIME)
+    if cat in ("direct", "effectcomp"):
+        return set(PDTYPE)
+    if cat == "metabolite":
+        return set(METABOLITE)
+    if cat == "transits":
+        return {(n, d) for n in range(0, o.get("max_count", 5) + 1) for d in (DEPOT if o.get("nodepot", True) else DEPOT[:1])}
+    if cat == "peripherals":
+        return {(n, k) for n in range(0, o.get("max_periph", 4) + 1) for k in (PERIPH_KIND if o.get("met", True) else PERIPH_KIND[:1])}
+    if cat == "indirect":
+        return {(m, p) for m in PDTYPE for p in PRODUCTION}
+    return set()
+
+
+def mutate_space(rng, S, relation, o=None):
+    """Derive a related space: 'same' | 'subset' | 'superset' | 'perturb'."""
+    o = o or {}
+    T = dict(S)
+    if relation == "same":
+        return T
+    cats = [c for c in ALL_CATS if S[c] and c != "allometry"]
+    rng.shuffle(cats)
+    changed = False
+    for c in cats[: rng.randint(1, max(1, len(cats)))]:
+        cur = set(S[c])
+        if relation in ("subset", "perturb") and len(cur) > 1:
+            for x in rng.sample(sorted(cur, key=repr), rng.randint(1, len(cur) - 1)):
+                cur.discard(x)
+                changed = True
+        if relation in ("superset", "perturb"):
+            if c == "covariate":
+                p, cv, fp, op, opt = rng.choice(sorted(cur, key=repr))
+                if isinstance(p, str) and isinstance(cv, str):
+                    new = (rng.choice(PARAM_POOL), cv, fp, op, True) if rng.random() < 0.5 else (p, cv, rng.choice(FP_ALL), op, True)
+                    if new not in cur and (new[:4] + (False,)) not in cur:
+                        cur.add(new)
+                        changed = True
+            else:
+                rest = sorted(universe(c, o) - cur, key=repr)
+                if rest:
+                    for x in rng.sample(rest, rng.randint(1, min(2, len(rest)))):
+                        cur.add(x)
+                        changed = True
+        T[c] = frozenset(cur)
+    return T
+
+
+# -- rendering -------------------------------------------------------------------------------
+class Renderer:
+    """S -> text.  cfg keys (all default True/random): wildcard, canonical, case, spaces, split, let, ranges."""
 
     def __init__(self, rng, cfg=None):
-        self.rng = rng
-        self.cfg = {"wildcard": True, "lists": True, "ranges": True, "case": True, "spaces": True,
-                    "dup_in_list": True, "max_count": 4}
+        # every category is spelled from its own random stream: changing how one category is written (delta
+        # checks) leaves the spelling of all others untouched
+        self.base = rng.getrandbits(64)
+        self.rng = random.Random(f"{self.base}:init")
+        rng = self.rng
+        self.cfg = {"wildcard": True, "kind_wildcard": True, "canonical": False, "case": True, "spaces": True, "split": True,
+                    "let": True, "ranges": True, "dup": True, "allometry_ref": True}
         if cfg:
             self.cfg.update(cfg)
-        self.tags = set()
         self.case_style = rng.choice([0, 0, 1, 2, 3]) if self.cfg["case"] else 0
+        self.lets = []
+        self.let_used = set()
 
     def cs(self, w):
         st = self.case_style
-        if st == 3:
-            st = self.rng.choice([0, 1, 2, 3])
-        out = _case(self.rng, w, st)
-        if out != w:
-            self.tags.add("case")
-        return out
+        rng = self.rng
+        if st == 0:
+            return w
+        if st == 1:
+            return w.lower()
+        if st == 2:
+            return w.capitalize()
+        return "".join(ch.lower() if rng.random() < 0.5 else ch.upper() for ch in w)
 
     def sp(self):
-        if self.cfg["spaces"] and self.rng.random() < 0.15:
-            self.tags.add("spaces")
+        if self.cfg["spaces"] and self.rng.random() < 0.12:
             return " " * self.rng.randint(1, 2)
         return ""
 
-    def modes(self, allowed, allow_wild=True, allow_list=True, kmax=None):
+    def lst(self, items):
+        return "[" + self.sp() + ("," + self.sp()).join(items) + self.sp() + "]"
+
+    def modes(self, M, allowed, wildcard=True, allow_list=True, wild_value=None):
         rng = self.rng
-        r = rng.random()
-        if allow_wild and self.cfg["wildcard"] and r < 0.15:
-            self.tags.add("wildcard")
+        canonical = self.cfg["canonical"]
+        full = set(M) == set(wild_value if wild_value is not None else allowed)
+        if full and wildcard and self.cfg["wildcard"] and not canonical and rng.random() < 0.5:
             return "*"
-        if allow_list and self.cfg["lists"] and r < 0.6:
-            k = rng.randint(1, min(len(allowed), kmax or len(allowed)))
-            items = rng.sample(list(allowed), k)
-            if self.cfg["dup_in_list"] and rng.random() < 0.08:
+        items = [m for m in allowed if m in M]
+        if not canonical:
+            rng.shuffle(items)
+            if self.cfg["dup"] and allow_list and rng.random() < 0.06:
                 items.append(rng.choice(items))
-                self.tags.add("dup_in_list")
-            self.tags.add("list")
-            return "[" + self.sp() + ("," + self.sp()).join(self.cs(x) for x in items) + self.sp() + "]"
-        return self.cs(rng.choice(list(allowed)))
+        if len(items) == 1 and (canonical or not allow_list or rng.random() < 0.7):
+            return self.cs(items[0])
+        assert allow_list, (M, allowed)
+        return self.lst([self.cs(x) for x in items])
 
-    def counts(self):
+    def counts(self, C):
         rng = self.rng
-        mx = self.cfg["max_count"]
-        r = rng.random()
-        if self.cfg["ranges"] and r < 0.3:
-            a = rng.randint(0, mx - 1)
-            b = rng.randint(a, mx)
-            self.tags.add("range")
-            return f"{a}{self.sp()}..{self.sp()}{b}"
-        if self.cfg["lists"] and r < 0.6:
-            k = rng.randint(1, 3)
-            items = rng.sample(range(0, mx + 1), k)
-            if self.cfg["dup_in_list"] and rng.random() < 0.08:
-                items.append(rng.choice(items))
-                self.tags.add("dup_in_list")
-            self.tags.add("list")
-            return "[" + ("," + self.sp()).join(str(x) for x in items) + "]"
-        return str(rng.randint(0, mx))
+        c = sorted(C)
+        canonical = self.cfg["canonical"]
+        if len(c) == 1 and (canonical or rng.random() < 0.7):
+            return str(c[0])
+        contiguous = c == list(range(c[0], c[-1] + 1))
+        if contiguous and self.cfg["ranges"] and (canonical or rng.random() < 0.6) and len(c) > 1:
+            return f"{c[0]}{self.sp()}..{self.sp()}{c[-1]}"
+        if not canonical:
+            rng.shuffle(c)
+            if self.cfg["dup"] and rng.random() < 0.06:
+                c.append(rng.choice(c))
+        return self.lst([str(x) for x in c])
 
-    def stmt(self, kw, *args):
-        return self.cs(kw) + self.sp() + "(" + self.sp() + ("," + self.sp()).join(args) + self.sp() + ")"
+    def stmt(self, kw, *args, q=""):
+        return self.cs(kw) + self.sp() + q + self.sp() + "(" + self.sp() + ("," + self.sp()).join(args) + self.sp() + ")"
 
-    def names(self, pool, kmax=3):
+    def split_sets(self, M):
+        """Cover M by one or two (possibly overlapping) non-empty subsets: redundant descriptions."""
+        M = sorted(M, key=repr)
         rng = self.rng
-        if self.cfg["lists"] and rng.random() < 0.5:
-            k = rng.randint(1, kmax)
-            items = rng.sample(list(pool), k)
-            return "[" + ("," + self.sp()).join(self.cs(x) for x in items) + "]"
-        return self.cs(rng.choice(list(pool)))
+        if self.cfg["canonical"] or not self.cfg["split"] or len(M) < 2 or rng.random() < 0.75:
+            return [set(M)]
+        k = rng.randint(1, len(M) - 1)
+        rng.shuffle(M)
+        a, b = set(M[:k]), set(M[k:])
+        if rng.random() < 0.4:
+            b.add(rng.choice(sorted(a, key=repr)))
+        return [a, b]
 
-    # one statement per call ------------------------------------------------------------------
-    def absorption(self, allowed=ABSORPTION):
-        return self.stmt("ABSORPTION", self.modes(allowed))
+    def mode_category(self, kw, M, allowed):
+        return [self.stmt(kw, self.modes(part, allowed)) for part in self.split_sets(M)]
 
-    def elimination(self):
-        return self.stmt("ELIMINATION", self.modes(ELIMINATION))
-
-    def lagtime(self):
-        return self.stmt("LAGTIME", self.modes(LAGTIME))
-
-    def transits(self, depot=True):
-        args = [self.counts()]
-        if depot and self.rng.random() < 0.6:
-            d = self.modes(DEPOT)
-            args.append(d)
-            if "NODEPOT" in d.upper() or d == "*":
-                self.tags.add("nodepot")
-        return self.stmt("TRANSITS", *args)
-
-    def peripherals(self, kind=True):
-        args = [self.counts()]
-        if kind and self.rng.random() < 0.4:
-            d = self.modes(PERIPH_KIND)
-            args.append(d)
-            if "MET" in d.upper() or d == "*":
-                self.tags.add("met")
-        return self.stmt("PERIPHERALS", *args)
-
-    def direct(self):
-        return self.stmt("DIRECTEFFECT", self.modes(PDTYPE))
-
-    def effectcomp(self):
-        return self.stmt("EFFECTCOMP", self.modes(PDTYPE))
-
-    def indirect(self):
-        return self.stmt("INDIRECTEFFECT", self.modes(PDTYPE), self.modes(PRODUCTION, allow_list=False))
-
-    def metabolite(self):
-        return self.stmt("METABOLITE", self.modes(METABOLITE))
-
-    def allometry(self, with_ref=True):
-        args = [self.cs(self.rng.choice(COV_POOL))]
-        if with_ref:
-            args.append(self.rng.choice(["70", "70.0", "1", "12.5", "100"]))
-        return self.stmt("ALLOMETRY", *args)
-
-    def covariate(self, optional=None, params=None, covs=None, op=None):
+    def pair_category(self, kw, pairs, seconds, default_second, wild_key):
+        """TRANSITS / PERIPHERALS: set of (count, second)."""
         rng = self.rng
-        if optional is None:
-            optional = rng.random() < 0.6
-        p = params if params is not None else self.names(PARAM_POOL)
-        c = covs if covs is not None else self.names(COV_POOL, 2)
-        r = rng.random()
-        if optional and self.cfg["wildcard"] and r < 0.25:
-            fp = "*"
-            self.tags.add("wildcard")
-        else:
-            fp = self.modes(FP_ALL, allow_wild=False, kmax=3)
-        args = [p, c, fp]
-        if op is None:
-            op = rng.choice([None, None, "*", "+"])
-        if op:
-            args.append(op)
-        kw = self.cs("COVARIATE") + self.sp() + ("?" if optional else "")
-        return kw + self.sp() + "(" + self.sp() + ("," + self.sp()).join(args) + self.sp() + ")"
+        canonical = self.cfg["canonical"]
+        by = {s: {n for n, t in pairs if t == s} for s in seconds}
+        by = {s: c for s, c in by.items() if c}
+        out = []
+        keys = [s for s in seconds if s in by]
+        if len(keys) == 2 and by[keys[0]] == by[keys[1]] and (canonical or rng.random() < 0.7):
+            for part in self.split_sets(by[keys[0]]):
+                if self.cfg["wildcard"] and self.cfg.get(wild_key, True) and not canonical and rng.random() < 0.5:
+                    sec = "*"
+                else:
+                    ks = list(keys)
+                    if not canonical:
+                        rng.shuffle(ks)
+                    sec = self.lst([self.cs(k) for k in ks])
+                out.append(self.stmt(kw, self.counts(part), sec))
+            return out
+        for s in keys:
+            for part in self.split_sets(by[s]):
+                args = [self.counts(part)]
+                if s != default_second or (not canonical and rng.random() < 0.4):
+                    args.append(self.cs(s) if canonical or rng.random() < 0.8 else self.lst([self.cs(s)]))
+                out.append(self.stmt(kw, *args))
+        return out
 
-    def let(self, name, pool):
-        return self.stmt("LET", name, self.names(pool))
+    def indirect(self, pairs):
+        rng = self.rng
+        canonical = self.cfg["canonical"]
+        by = {p: {m for m, q in pairs if q == p} for p in PRODUCTION}
+        by = {p: m for p, m in by.items() if m}
+        keys = [p for p in PRODUCTION if p in by]
+        out = []
+        if len(keys) == 2 and by[keys[0]] == by[keys[1]] and self.cfg["wildcard"] and not canonical and rng.random() < 0.6:
+            return [self.stmt("INDIRECTEFFECT", self.modes(by[keys[0]], PDTYPE), "*")]
+        for p in keys:
+            for part in self.split_sets(by[p]):
+                out.append(self.stmt("INDIRECTEFFECT", self.modes(part, PDTYPE), self.cs(p)))
+        return out
 
-    def join(self, stmts):
-        out = stmts[0]
-        for s in stmts[1:]:
-            sep = self.rng.choice([";", ";", "\n"])
-            if sep == "\n":
-                self.tags.add("newline")
+    def names(self, items, pool_kind):
+        """List of names (or a reference); may go through a LET definition."""
+        rng = self.rng
+        items = sorted(items, key=repr)
+        if len(items) == 1 and isinstance(items[0], tuple):
+            return "@" + items[0][1]
+        canonical = self.cfg["canonical"]
+        if not canonical:
+            rng.shuffle(items)
+        if self.cfg["let"] and not canonical and rng.random() < 0.15:
+            free = [n for n in LET_NAMES if n not in self.let_used]
+            if free:
+                name = rng.choice(free)
+                self.let_used.add(name)
+                self.lets.append(self.stmt("LET", name, self.lst([self.cs(x) for x in items]) if len(items) > 1 or rng.random() < 0.5 else self.cs(items[0])))
+                return "@" + name
+        if len(items) == 1 and (canonical or rng.random() < 0.7):
+            return self.cs(items[0])
+        return self.lst([self.cs(x) for x in items])
+
+    def covariates(self, tuples):
+        rng = self.rng
+        out = []
+        groups = {}
+        for p, c, fp, op, opt in tuples:
+            groups.setdefault((op, opt), {}).setdefault((p, c), set()).add(fp)
+        for (op, opt), pcs in sorted(groups.items(), key=repr):
+            # rectangles: same fp-set -> by param -> cov-set -> merge params with equal cov-set
+            by_fps = {}
+            for pc, fps in pcs.items():
+                by_fps.setdefault(frozenset(fps), []).append(pc)
+            for fps, lst in sorted(by_fps.items(), key=repr):
+                by_p = {}
+                for p, c in lst:
+                    by_p.setdefault(p, set()).add(c)
+                by_cs = {}
+                for p, cs_ in by_p.items():
+                    by_cs.setdefault(frozenset(cs_), set()).add(p)
+                for cs_, ps in sorted(by_cs.items(), key=repr):
+                    rects = [(ps, cs_, fps)]
+                    if opt and not self.cfg["canonical"] and self.cfg["split"] and rng.random() < 0.2 and len(ps) > 1:
+                        ps_l = sorted(ps, key=repr)
+                        k = rng.randint(1, len(ps_l) - 1)
+                        rects = [(set(ps_l[:k]), cs_, fps), (set(ps_l[k:]), cs_, fps)]
+                    for ps_, cc, ff in rects:
+                        # a reference may only stand alone in its position
+                        for pgroup in self._ref_groups(ps_):
+                            for cgroup in self._ref_groups(cc):
+                                if opt and set(ff) == set(FP_CONTINUOUS) and self.cfg["wildcard"] and not self.cfg["canonical"] and rng.random() < 0.6:
+                                    fp_txt = "*"
+                                else:
+                                    fp_txt = self.modes(ff, FP_ALL, wildcard=False)
+                                args = [self.names(pgroup, "p"), self.names(cgroup, "c"), fp_txt]
+                                if op == "+" or (not self.cfg["canonical"] and rng.random() < 0.3):
+                                    args.append(op)
+                                out.append(self.stmt("COVARIATE", *args, q="?" if opt else ""))
+        return out
+
+    @staticmethod
+    def _ref_groups(items):
+        plain = {x for x in items if not isinstance(x, tuple)}
+        out = [{x} for x in items if isinstance(x, tuple)]
+        if plain:
+            out.append(plain)
+        return out
+
+    def use(self, cat):
+        self.rng = random.Random(f"{self.base}:{cat}")
+
+    def render(self, S, order=None):
+        st = []
+        for t in S["covariate"] or ():
+            for x in t[:2]:
+                if isinstance(x, tuple):
+                    self.let_used.add(x[1])  # never define a symbol that the text uses as an automatic one
+        if S["absorption"]:
+            self.use("absorption")
+            st.append(self.mode_category("ABSORPTION", S["absorption"], ABSORPTION))
+        if S["elimination"]:
+            self.use("elimination")
+            st.append(self.mode_category("ELIMINATION", S["elimination"], ELIMINATION))
+        if S["transits"]:
+            self.use("transits")
+            st.append(self.pair_category("TRANSITS", S["transits"], DEPOT, "DEPOT", "depot_wildcard"))
+        if S["peripherals"]:
+            self.use("peripherals")
+            st.append(self.pair_category("PERIPHERALS", S["peripherals"], PERIPH_KIND, "DRUG", "kind_wildcard"))
+        if S["lagtime"]:
+            self.use("lagtime")
+            st.append(self.mode_category("LAGTIME", S["lagtime"], LAGTIME))
+        if S["covariate"]:
+            self.use("covariate")
+            st.append(self.covariates(S["covariate"]))
+        if S["direct"]:
+            self.use("direct")
+            st.append(self.mode_category("DIRECTEFFECT", S["direct"], PDTYPE))
+        if S["effectcomp"]:
+            self.use("effectcomp")
+            st.append(self.mode_category("EFFECTCOMP", S["effectcomp"], PDTYPE))
+        if S["indirect"]:
+            self.use("indirect")
+            st.append(self.indirect(S["indirect"]))
+        if S["metabolite"]:
+            self.use("metabolite")
+            st.append(self.mode_category("METABOLITE", S["metabolite"], METABOLITE))
+        self.use("layout")
+        rng = self.rng
+        if S["allometry"]:
+            (cov, ref), = S["allometry"]
+            args = [cov]  # the covariate name of ALLOMETRY is kept verbatim (no case folding documented)
+            if self.cfg["allometry_ref"]:
+                args.append(str(int(ref)) if ref == int(ref) and rng.random() < 0.5 else repr(ref))
+            st.append([self.stmt("ALLOMETRY", *args)])
+        flat = [x for grp in st for x in grp]
+        if not self.cfg["canonical"]:
+            # statements of one category keep their relative order; categories are interleaved at random
+            idx = list(range(len(flat)))
+            rng.shuffle(idx)
+            pos = sorted(idx)
+            flat = [flat[i] for i in idx] if rng.random() < 0.5 else flat
+        flat = self.lets + flat
+        out = flat[0]
+        for s in flat[1:]:
+            sep = ";" if self.cfg["canonical"] else rng.choice([";", ";", "\n"])
             out += self.sp() + sep + self.sp() + s
         return out
+
+
+def render(rng, S, cfg=None):
+    return Renderer(rng, cfg).render(S)
+
+
+def reduced_nodes_merge_only_if_several_groups(feats):
+    """Model of the behaviour 'collector nodes are only inserted when a layer has MORE THAN ONE group of
+    same-feature models' (used only to attribute a finding, never to judge)."""
+    # a frontier node is (frozenset of features upstream incl. itself)
+    out = []
+    frontier = [frozenset()]  # multiset of upstream-feature sets of the current leaf nodes
+    while True:
+        groups = {}
+        for F in frontier:
+            groups.setdefault(F, 0)
+            groups[F] += 1
+        multi = [F for F, k in groups.items() if k > 1]
+        if len(multi) > 1:
+            new_frontier = []
+            for F, k in groups.items():
+                if k > 1 and allowed_next(feats, F):
+                    new_frontier.append(F)  # merged into one collector
+                else:
+                    new_frontier.extend([F] * k)
+            frontier = new_frontier
+        nxt = []
+        progressed = False
+        for F in frontier:
+            nxts = allowed_next(feats, F)
+            if not nxts:
+                continue
+            for f in nxts:
+                out.append((F, f))
+                nxt.append(F | {f})
+                progressed = True
+        if not progressed:
+            return out
+        # leaves that could not be extended stay leaves but no longer matter for grouping of new layers:
+        # pharmpy groups *all* output tasks, including old leaves
+        frontier = nxt + [F for F in frontier if not allowed_next(feats, F)]
